@@ -29,6 +29,9 @@ Proof.
   - (* identifier *)
     cbn [free_vars]. destruct (mem x bound || _ || _ || _)%bool eqn:C; [intros []|].
     intros [<-|[]] Hn. cbn [subst]. rewrite Hn. cbn [free_vars]. rewrite C. now left.
+  - (* input reference *)
+    cbn [free_vars]. destruct (mem "inputs" bound) eqn:C; [intros []|].
+    intros [<-|[]] Hn. cbn [subst]. rewrite Hn. cbn [free_vars]. rewrite C. now left.
   - (* list *)
     cbn [subst]. cbn [free_vars]. induction H as [|[a n t] l Hn Hl IH]; [intros []|].
     cbn in Hn. intros Hin Hz. apply in_app_or in Hin as [Hin|Hin]; apply in_or_app.
